@@ -524,7 +524,7 @@ func parts(tier string) []part {
 		return []part{
 			{"small-deep", 5, []string{"10"}, true},
 			{"sizes", 3, []string{"10", "T-1", "T", "T+1", "T+1rnd", "3T"}, true},
-			{"big-deep", 4, []string{"10", "T+1"}, true},
+			{"big-deep", 4, []string{"10", "T+1"}, false},
 		}
 	}
 	return []part{
